@@ -18,10 +18,11 @@ Record cfg := mkCfg {
   f35 : bool;   (* block selection sorts by key only (no TypeError on equal keys) *)
   f37 : bool;   (* ImportAlreadyExistsError is caught in the add-missing loop too *)
   f38 : bool;   (* a last prologue line without newline is terminated before the new import block *)
-  f40 : bool    (* a bytes-literal statement is not a docstring *)
+  f40 : bool;   (* a bytes-literal statement is not a docstring *)
+  f45 : bool    (* an emptied import block that continued a backslash line prints a newline *)
 }.
-Definition repaired : cfg := mkCfg true true true true true true true true true true.
-Definition unchanged : cfg := mkCfg false false false false false false false false false false.
+Definition repaired : cfg := mkCfg true true true true true true true true true true true.
+Definition unchanged : cfg := mkCfg false false false false false false false false false false false.
 
 (* where the code raises: ConflictingImportsError (ImportSet.pretty_print), LineNumberAmbiguousError,
    Exception("Multiple imports to remove"), TypeError (tuple comparison falls through to the block objects),
@@ -34,6 +35,9 @@ Arguments Err {A} e.
 Section WithRender.
 (* ImportSet.pretty_print(params) : an arbitrary function of the import set *)
 Variable R : list import -> str.
+(* the tokenizer's verdict in _ends_with_line_continuation(text): no COMMENT token ends on the last physical line
+   of text (a backslash that ends a comment continues nothing) *)
+Variable NC : str -> bool.
 
 (*  SourceToSourceImportBlockTransformation.pretty_print:
       if not allow_conflicts and self.conflicting_imports: raise ConflictingImportsError
@@ -52,18 +56,38 @@ Definition pp_block (c : cfg) (b : block) : res str :=
   | Imps ib => pp_iblock c ib
   end.
 
-(*  result = [block.pretty_print(params=params) for block in self.blocks]; FileText.concatenate(result)  *)
-Fixpoint pp (c : cfg) (bs : list block) : res str :=
+(*  str(text).endswith("\\\n")  *)
+Fixpoint ends_bsnl (s : str) : bool :=
+  match s with
+  | [] => false
+  | [a; b] => (a =? c_bslash)%N && (b =? c_nl)%N
+  | _ :: r => ends_bsnl r
+  end.
+
+(*  result = []
+    for block in self.blocks:
+        text = block.pretty_print(params=params)
+        [F45]  if not text and result and isinstance(block, ImportBlockTransformation)
+                  and self._ends_with_line_continuation(result[-1]): text = "\n"
+        result.append(text)
+    return FileText.concatenate(result)
+    _ends_with_line_continuation(text):  joined.endswith("\\\n") and no COMMENT token ends on the last line
+    `prev` = the previous block's text ends with a line that is really continued  *)
+Fixpoint pp_from (c : cfg) (prev : bool) (bs : list block) : res str :=
   match bs with
   | [] => Ok []
   | b :: r => match pp_block c b with
               | Err e => Err e
-              | Ok t => match pp c r with
-                        | Err e => Err e
-                        | Ok t' => Ok (t ++ t')
-                        end
+              | Ok t0 =>
+                  let t := if f45 c && prev && is_nil t0 && (match b with Imps _ => true | Other _ _ => false end)
+                           then [c_nl] else t0 in
+                  match pp_from c (ends_bsnl t && NC t) r with
+                  | Err e => Err e
+                  | Ok t' => Ok (t ++ t')
+                  end
               end
   end.
+Definition pp (c : cfg) (bs : list block) : res str := pp_from c false bs.
 End WithRender.
 
 (* ---------------------------------------------------------------------------------------------- *)
@@ -356,24 +380,25 @@ Definition fix_blocks (c : cfg) (fl : flags) (known : str -> list import) (mand 
       ...; return transformer.output(params)                                                        *)
 Section Tool.
 Variable R : list import -> str.
+Variable NC : str -> bool.
 Variable parse : str -> list block.
 Variable scan : str -> bool -> list (nat * str) * list (nat * import).
 
 Definition tidy (c : cfg) (fl : flags) (known : str -> list import) (mand : list import)
            (bs0 : list block) : res str :=
-  match pp R c bs0 with
+  match pp R NC c bs0 with
   | Err e => Err e
   | Ok t1 =>
       let bs1 := parse t1 in
       let '(ms, us) := scan t1 (remove_unused fl) in
       match fix_blocks c fl known mand bs1 ms us with
       | Err e => Err e
-      | Ok (bs2, _) => pp R c bs2
+      | Ok (bs2, _) => pp R NC c bs2
       end
   end.
 
 (*  reformat_import_statements: transformer.output(params)  *)
-Definition reformat (c : cfg) (bs0 : list block) : res str := pp R c bs0.
+Definition reformat (c : cfg) (bs0 : list block) : res str := pp R NC c bs0.
 End Tool.
 
 (* ---------------------------------------------------------------------------------------------- *)
